@@ -9,6 +9,7 @@ sys.path.insert(0, os.path.join(os.path.dirname(os.path.abspath(__file__)), ".."
 os.environ["VERIF_NO_INLINE"] = "1"
 from lint import facts
 fns, adts, closures = {}, {}, {}
+enums = set()
 
 
 def fingerprint(f):
@@ -33,6 +34,8 @@ for cfg in ("all", "default", "checkpoint", "futures"):
         if f.kind == "Closure":
             closures[k] = fingerprint(f)
     for a, d in p.adts.items():
+        if d["kind"] != "struct":
+            enums.add(a)
         if d["kind"] == "struct" and len(d["variants"]) == 1:
             adts[a] = [[x["name"], x["ty"]] for x in d["variants"][0]["fields"]]
 # guard vocabulary of the effect sites (lint/spec/guardvocab.py), computed on the *normalised* program of each configuration
@@ -68,13 +71,7 @@ for cfg in ("all", "default", "checkpoint", "futures"):
         mw[k] = sorted(set(mw[k]) & set(v)) if k in mw else v
     for k, v in v_.items():
         wv[k] = sorted(set(wv.get(k, [])) | set(v))
-from lint.spec import valuevocab
-vv = {}
-for cfg in ("all", "default", "checkpoint", "futures"):
-    p = facts.load(cfg)
-    for k, v in valuevocab.value_tables(p).items():
-        vv[k] = sorted(set(vv.get(k, [])) | set(v))
 out = os.path.join(os.path.dirname(os.path.abspath(__file__)), "..", "lint", "reference.json")
 with open(out, "w") as fh:
-    json.dump(dict(fns=fns, adts=adts, closures=closures, guard_vocab=vocab, must_effects=must, reach_effects=reach, must_writes=mw, write_vocab=wv, may_effects=mayeff, write_sites=wsites, value_vocab=vv), fh, indent=0, sort_keys=True)
+    json.dump(dict(fns=fns, adts=adts, enums=sorted(enums), closures=closures, guard_vocab=vocab, must_effects=must, reach_effects=reach, must_writes=mw, write_vocab=wv, may_effects=mayeff, write_sites=wsites), fh, indent=0, sort_keys=True)
 print(len(fns), "functions,", len(adts), "structs,", len(closures), "closures written")
